@@ -581,19 +581,21 @@ pub fn check_c03(inst: &RefInstance, o: &Output, out: &mut Vec<Violation>) {
             }
         }
     }
-    let mut got_global: Vec<(String, String, String, String, String)> = o
-        .dhts
-        .iter()
-        .map(|(d, f)| (d.origin.clone(), d.destination.clone(), d.departure.clone(), d.arrival.clone(), f.join("+")))
-        .collect();
-    expected_global.sort();
-    got_global.sort();
-    if expected_global != got_global && out.iter().all(|v| !v.check.starts_with("C03.deadhead")) {
-        out.push(viol(
-            "C03",
-            "C03.deadhead_global",
-            format!("the global dead-head list ({} entries) differs from the vehicles' own lists ({} entries)", got_global.len(), expected_global.len()),
-        ));
+    // The top-level dead-head list is the trip view of the same movements: every dead-head trip of a
+    // vehicle must appear there with that vehicle in its formation (entries may be shared by coupled
+    // vehicles; multiplicities and ids are not demanded).
+    if out.iter().all(|v| !v.check.starts_with("C03.deadhead")) {
+        for (origin, destination, departure, arrival, vid) in &expected_global {
+            let found = o.dhts.iter().any(|(d, f)| d.origin == *origin && d.destination == *destination && d.departure == *departure && d.arrival == *arrival && f.iter().any(|x| x == vid));
+            if !found {
+                out.push(viol(
+                    "C03",
+                    "C03.deadhead_missing_in_trip_view",
+                    format!("dead-head trip {}->{} {}..{} of vehicle {} is not in the top-level deadHeadTrips list", origin, destination, departure, arrival, vid),
+                ));
+                break;
+            }
+        }
     }
 }
 
